@@ -28,7 +28,10 @@ func BuildStepped() *World {
 	net.SetLocalKey(labnet.OutsiderKey())
 	w := &World{KA: newKey("accA", 1), KB: newKey("accB", 2)}
 	P, err := chainlab.NewPreludeProg(net, 16, func(h int) []byte {
-		if h == 9 || h == 10 {
+		// 9, 10: their reward is paid at 11 (in the prelude, never detached). 15, 16: the last epoch of the prelude;
+		// its reward is paid by the FIRST block of every branch of the world (a1, b1: height 17), so a wallet
+		// output created by the coinbase of a block that a reorganisation detaches exists on every fork
+		if h == 9 || h == 10 || h == 15 || h == 16 {
 			return w.KA.Prog
 		}
 		return nil
